@@ -1708,7 +1708,9 @@ class PyCdlib:
                             self.isohybrid_mbr.update_mac(entry_extent,
                                                           enc.entry.sector_count)
                         num_seen_efi += 1
-                    elif enc.platform_id == 0 and not placed:
+                    elif enc.platform_id == 0 and enc.entry is self.eltorito_boot_catalog.initial_entry:
+                        # The MBR code starts the boot file of the initial
+                        # entry, not that of a later section entry.
                         self.isohybrid_mbr.update_rba(entry_extent)
 
                 if placed:
